@@ -595,7 +595,7 @@ def specs(ctx):
                                              [2 * cs + 1, 1, 1], [cs + 2, 2, 1, cs], [n // 2 + 1, 1, 2], [3 * cs, cs - 1 or 1, 1, 1, 1],
                                              [rng.randrange(1, cs + 2) for _ in range(rng.choice([3, 5, 7]))],
                                              [rng.randrange(1, cs + 2) for _ in range(rng.choice([3, 5, 7]))],
-                                             [max(1, cs - 2), 1, 1, 2, 1]])
+                                             [max(1, cs - 2), 1, 1, 2, 1], [(cs + 1) // 2, 1]])
             out.append(spec)
     # a few runs on the real multiprocessing pool
     for k in range(ctx.n(5, 12)):
@@ -630,7 +630,7 @@ def matrix_specs(ctx):
                     piddtype=rng.choice(["i8", "i8", "i4"]))
         if fmt == "parquet":
             spec["rgsize"] = rng.choice([1, max(1, cs - 1), cs, cs + 1, max(1, n), [2 * cs + 1, 1, 1], [cs + 2, 2, 1, cs], [n // 2 + 1, 1, 2],
-                                         [rng.randrange(1, cs + 2) for _ in range(rng.choice([3, 5, 7]))], [max(1, cs - 2), 1, 1, 2, 1]])
+                                         [rng.randrange(1, cs + 2) for _ in range(rng.choice([3, 5, 7]))], [max(1, cs - 2), 1, 1, 2, 1], [(cs + 1) // 2, 1]])
         pools = ["random", "reverse", "identity"]
         execs = [dict(workers=0, pool="identity", wvia="arg", progress=False, history=False),
                  dict(workers=0, pool="identity", wvia=rng.choice(["env", "cap"]), progress=True, history=rng.random() < 0.6),
